@@ -15,6 +15,7 @@ import SkNet.Lemmas.Split
 import SkNet.Lemmas.SplitAgree
 import SkNet.Lemmas.SplitPin
 import SkNet.Lemmas.TerminateHierarchy
+import SkNet.Lemmas.HierHelpers
 import SkNet.Lemmas.MergeW
 import SkNet.Lemmas.ParisMono
 import SkNet.Lemmas.Reducible
@@ -105,26 +106,8 @@ section paris
 open SkNet.Paris SkNet.Agg
 variable {α : Type} [Add α] [Mul α] [Div α] [OfNat α 0] [OfNat α 1] [OfNat α 2] [LT α] [DecidableLT α] [BEq α]
 
-omit [Mul α] [Div α] [OfNat α 1] [OfNat α 2] [LT α] [DecidableLT α] [BEq α] in
-theorem pinv_init (csr : List (List (Nat × α))) (outW inW : List α) :
-    PInv csr.length (AggGraph.init csr outW inW) [] [] (liveInit (List.replicate csr.length 1)) := by
-  have hsz : (AggGraph.init csr outW inW).sizes = (List.range csr.length).map fun i => (i, 1) := rfl
-  refine ⟨rfl, ?_, rfl, ?_, ?_, by simp, by simp, ?_⟩
-  · have := linv_init (List.replicate csr.length 1)
-    simpa using this
-  · intro x s hx
-    rw [hsz] at hx
-    by_cases hlt : x < csr.length
-    · rw [get?_map_range (fun _ => 1) csr.length x hlt] at hx
-      rw [liveInit_get? _ x hlt]; exact hx
-    · have : Dict.get? ((List.range csr.length).map fun i => (i, 1)) x = none := by
-        rw [Dict.get?_eq_none_iff]; simp [Dict.keys, Function.comp_def]; omega
-      rw [this] at hx; cases hx
-  · rw [hsz]; simp [Dict.keys, Function.comp_def, List.nodup_range]
-  · rw [hsz]; simp [liveInit]
-
 /-- **Paris** (`paris_valid_partial`): whenever the nearest-neighbour chain returns — it is run with fuel in the
-    model; its termination is not proved — the dendrogram written by `Paris.fit` before the optional reordering
+    model; `paris_terminates` bounds the fuel needed — the dendrogram written by `Paris.fit` before the optional reordering
     (the merges of reciprocal nearest neighbours, then the joins of the connected components at infinite
     height) is a valid dendrogram over the `n` nodes: `n-1` rows, every row merges two distinct live clusters and
     carries the number of nodes below.  This holds for every scalar type, every rounding and every weights: the
@@ -221,28 +204,6 @@ end reorder
 
 /-! ### the Louvain hierarchies: tree → `dendrogram_` -/
 
-theorem tleaves_length_ge : (∀ t, WF t → 1 ≤ (tleaves t).length) ∧
-    (∀ ts, WFL ts → ts.length ≤ (tleavesL ts).length) := by
-  refine ⟨fun t => ?_, fun ts => ?_⟩
-  · refine Tree.rec (motive_1 := fun t => WF t → 1 ≤ (tleaves t).length)
-      (motive_2 := fun ts => WFL ts → ts.length ≤ (tleavesL ts).length) ?_ ?_ ?_ ?_ t
-    · intro k _; simp [tleaves]
-    · intro ts ih hw; simp only [WF] at hw; simp only [tleaves]; have := ih hw.2; omega
-    · intro _; simp [tleavesL]
-    · intro t ts iht ihts hw
-      simp only [WFL] at hw
-      simp only [tleavesL, List.length_cons, List.length_append]
-      have := iht hw.1; have := ihts hw.2; omega
-  · refine Tree.rec_1 (motive_1 := fun t => WF t → 1 ≤ (tleaves t).length)
-      (motive_2 := fun ts => WFL ts → ts.length ≤ (tleavesL ts).length) ?_ ?_ ?_ ?_ ts
-    · intro k _; simp [tleaves]
-    · intro ts ih hw; simp only [WF] at hw; simp only [tleaves]; have := ih hw.2; omega
-    · intro _; simp [tleavesL]
-    · intro t ts iht ihts hw
-      simp only [WFL] at hw
-      simp only [tleavesL, List.length_cons, List.length_append]
-      have := iht hw.1; have := ihts hw.2; omega
-
 /-- **LouvainIteration / LouvainHierarchy, from the tree on** (`treePipeline` = `get_dendrogram`, the shift of the
     heights, `reorder_dendrogram`): for every tree over the nodes `0 … n-1` whose inner lists have at least two
     elements — whatever partitions Louvain returned — `dendrogram_` is a valid dendrogram over the `n` nodes with
@@ -324,12 +285,6 @@ theorem louvainHierarchy_valid (n : Nat) (hn : 2 ≤ n) (first : List Nat) (more
     omega
   | node ts => exact louvain_pipeline_valid ts n hwf hperm
 
-theorem chained_of_seqOK : ∀ (more : List (List Nat)) (k : Nat), SeqOK more k → SkNet.Terminate.Chained k more := by
-  intro more
-  induction more with
-  | nil => intro k _; trivial
-  | cons next rest ih => intro k h; exact ⟨h.1, ih _ h.2⟩
-
 /-- **LouvainHierarchy, total**: with more recorded rounds of Louvain than clusters of the first round (the `while`
     loop of `_get_hierarchy` stops as soon as a round does not reduce the number of clusters:
     `SkNet.Terminate.getHierarchyLoop_terminates`), the loop ends and `dendrogram_` is a valid dendrogram over the
@@ -359,54 +314,6 @@ example : (match getHierarchy 3 [[0, 0, 0], [0]] with
 
 /-! ### split_dendrogram (bipartite input) -/
 
-theorem side_valid {α : Type} {m N off : Nat} {D : Dendro α} (hm : 0 < m) (hN : off + m ≤ N)
-    (hv : ValidDendro N D = true) :
-    ValidDendro m (sideLoop N 0 D (sideInit α m off)).rows = true := by
-  have hlen := valid_length hv
-  have hvl : validLoop N 0 D (liveInit (List.replicate N 1)) = true := by
-    unfold ValidDendro ValidDendroW at hv
-    simp only [Bool.and_eq_true, List.length_replicate] at hv
-    exact hv.2
-  rw [validLoop_eq_isSome] at hvl
-  obtain ⟨Lf, hLf⟩ := Option.isSome_iff_exists.mp hvl
-  have hinit : LInv N 0 (liveInit (List.replicate N 1)) := by simpa using linv_init (List.replicate N 1)
-  obtain ⟨LR, hS⟩ := sideLoop_sinv D 0 _ _ _ Lf (sinv_init (α := α) m N off hm hN) hinit hLf
-  -- a single live cluster is left in the full dendrogram, hence on the side
-  have hLfLen : Lf.length = 1 := by
-    have := (liveAfter_linv D 0 _ Lf hinit hLf).2
-    simp only [liveInit, List.length_map, List.length_range, List.length_replicate] at this
-    omega
-  have hidle : (sideLoop N 0 D (sideInit α m off)).id.length ≤ 1 := by
-    have hk : (Dict.keys Lf).length = 1 := by simp [Dict.keys, hLfLen]
-    match hkeys : Dict.keys Lf, hk with
-    | [z], _ =>
-      have hall : ∀ x ∈ Dict.keys (sideLoop N 0 D (sideInit α m off)).id, x = z := by
-        intro x hx
-        have := hS.sub x hx
-        rw [hkeys] at this
-        simpa using this
-      have hnd := hS.idNodup
-      generalize hks : Dict.keys (sideLoop N 0 D (sideInit α m off)).id = ks at hall hnd
-      have hkl : (sideLoop N 0 D (sideInit α m off)).id.length = ks.length := by
-        rw [← hks]; simp [Dict.keys]
-      rw [hkl]
-      match ks, hall, hnd with
-      | [], _, _ => simp
-      | [_], _, _ => simp
-      | a :: b :: _, hall, hnd =>
-        have ha := hall a (by simp)
-        have hb := hall b (by simp)
-        rw [ha, hb] at hnd
-        simp at hnd
-  have hcount := hS.count
-  have hpos := hS.pos
-  have hrows := (liveAfter_linv _ 0 _ LR (by simpa using linv_init (List.replicate m 1)) hS.live).2
-  simp only [liveInit, List.length_map, List.length_range, List.length_replicate] at hrows
-  unfold ValidDendro ValidDendroW
-  simp only [List.length_replicate, Bool.and_eq_true, beq_iff_eq]
-  refine ⟨by omega, ?_⟩
-  rw [validLoop_eq_isSome, hS.live]; rfl
-
 /-- **split_dendrogram** (`split_valid`): for a valid dendrogram over the `n1 + n2` nodes of a bipartite graph
     (rows first), `split_dendrogram` returns a valid dendrogram over the `n1` rows and a valid dendrogram over the
     `n2` columns (`n1 - 1` and `n2 - 1` merges, sizes counting the rows, resp. columns, below each merge). -/
@@ -429,23 +336,9 @@ example : ValidDendro 4 ([⟨0, 2, 1, 2⟩, ⟨1, 3, 1, 2⟩, ⟨4, 5, 2, 4⟩] 
       some ([⟨0, 1, 2, 2⟩], [⟨0, 1, 2, 2⟩]) := by decide
 
 
-theorem side_agrees {α : Type} {m N off : Nat} {D : Dendro α} (hm : 0 < m) (hN : off + m ≤ N)
-    (hv : ValidDendro N D = true) :
-    ∀ (u : Nat) (ru : Row α), (sideLoop N 0 D (sideInit α m off)).rows[u]? = some ru →
-      ∃ (t : Nat) (rt : Row α), D[t]? = some rt ∧ ru.h = rt.h ∧
-        leaves m (sideLoop N 0 D (sideInit α m off)).rows (m + u) = sideOf m off (leaves N D (N + t)) := by
-  have hvl : validLoop N 0 D (liveInit (List.replicate N 1)) = true := by
-    unfold ValidDendro ValidDendroW at hv
-    simp only [Bool.and_eq_true, List.length_replicate] at hv
-    exact hv.2
-  rw [validLoop_eq_isSome] at hvl
-  obtain ⟨Lf, hLf⟩ := Option.isSome_iff_exists.mp hvl
-  have hinit : LInv N 0 (liveInit (List.replicate N 1)) := by simpa using linv_init (List.replicate N 1)
-  have := sideLoop_ainv (α := α) (m := m) (N := N) (off := off) D [] _ _ _ Lf (sinv_init (α := α) m N off hm hN)
-    (ainv_init m N off hN) (by simpa using hinit) (by simpa using hLf)
-  simpa using this.rowsOK
-
-/-- **split_dendrogram agrees with the full dendrogram** (`split_agrees`): every merge of the row dendrogram is, at the
+/-- (superseded by `split_agrees_pinned`, which pins the height: here any merge of the full dendrogram with the same
+    restriction is accepted as a witness.)
+    **split_dendrogram agrees with the full dendrogram** (`split_agrees`): every merge of the row dendrogram is, at the
     same height, the restriction to the rows of a merge of the full dendrogram (its leaves are the rows below that
     merge, in the same order); likewise every merge of the column dendrogram with the columns renumbered from 0. -/
 theorem split_agrees {α : Type} {D : Dendro α} {n1 n2 : Nat} (h1 : 0 < n1) (h2 : 0 < n2)
@@ -465,21 +358,6 @@ theorem split_agrees {α : Type} {D : Dendro α} {n1 n2 : Nat} (h1 : 0 < n1) (h2
     rw [← hR]; exact this
   · have := side_agrees (m := n2) (N := n1 + n2) (off := n1) h2 (by omega) hv
     rw [← hC]; exact this
-
-/-- the sharper invariant at the end of the loop, for one side -/
-theorem side_pinned {α : Type} {m N off : Nat} {D : Dendro α} (hm : 0 < m) (hN : off + m ≤ N)
-    (hv : ValidDendro N D = true) :
-    ∃ Lf, BInv m N off D (sideLoop N 0 D (sideInit α m off)) Lf := by
-  have hvl : validLoop N 0 D (liveInit (List.replicate N 1)) = true := by
-    unfold ValidDendro ValidDendroW at hv
-    simp only [Bool.and_eq_true, List.length_replicate] at hv
-    exact hv.2
-  rw [validLoop_eq_isSome] at hvl
-  obtain ⟨Lf, hLf⟩ := Option.isSome_iff_exists.mp hvl
-  have hinit : LInv N 0 (liveInit (List.replicate N 1)) := by simpa using linv_init (List.replicate N 1)
-  have := sideLoop_binv (α := α) (m := m) (N := N) (off := off) D [] _ _ _ Lf (sinv_init (α := α) m N off hm hN)
-    (ainv_init m N off hN) (binv_init m N off hN) (by simpa using hinit) (by simpa using hLf)
-  exact ⟨Lf, by simpa using this⟩
 
 /-- **split_dendrogram agrees with the full dendrogram, with pinned heights** (`split_agrees_pinned`): the merges of
     the row dendrogram are *exactly* the merges of the full dendrogram that join two clusters both containing rows:
@@ -536,6 +414,35 @@ theorem split_sorted {α : Type} [LinearOrder α] {D : Dendro α} {n1 n2 : Nat} 
 example : ValidDendro 4 ([⟨0, 1, 1, 2⟩, ⟨4, 2, 2, 3⟩, ⟨5, 3, 3, 4⟩] : Dendro Nat) = true ∧
     (splitDendrogram ([⟨0, 1, 1, 2⟩, ⟨4, 2, 2, 3⟩, ⟨5, 3, 3, 4⟩] : Dendro Nat) 2 2).toOption =
       some ([⟨0, 1, 1, 2⟩], [⟨0, 1, 3, 2⟩]) := by decide
+
+/-- **The attributes of a bipartite fit** (`bipartite_attrs_valid`): `_split_vars` applies `split_dendrogram` to
+    `dendrogram_full_`. Whenever the full dendrogram over the `n1 + n2` nodes is valid with non-decreasing heights —
+    what `louvain_pipeline_valid`, `louvainIteration_valid`, `louvainHierarchy_total` and `paris_valid` /
+    `paris_returns` (reorder=True) give for the graph with `n1 + n2` nodes — `dendrogram_` = `dendrogram_row_` and
+    `dendrogram_col_` exist, are valid dendrograms over the `n1` rows and the `n2` columns, have non-decreasing heights,
+    and their merges are exactly the merges of the full dendrogram joining two clusters that both contain rows
+    (columns) — `split_agrees_pinned`. -/
+theorem bipartite_attrs_valid {α : Type} [LinearOrder α] {D : Dendro α} {n1 n2 : Nat} (h1 : 0 < n1) (h2 : 0 < n2)
+    (hv : ValidDendro (n1 + n2) D = true) (hs : heightsSorted D = true) :
+    ∃ R C, splitDendrogram D n1 n2 = .ok (R, C) ∧ ValidDendro n1 R = true ∧ ValidDendro n2 C = true ∧
+      heightsSorted R = true ∧ heightsSorted C = true := by
+  obtain ⟨R, C, hsp, hR, hC⟩ := split_valid h1 h2 hv
+  obtain ⟨_, _, hsorted⟩ := split_sorted h1 h2 hv hsp
+  obtain ⟨sR, sC⟩ := hsorted hs
+  exact ⟨R, C, hsp, hR, hC, sR, sC⟩
+
+/-- the composition for LouvainHierarchy on a bipartite input with `n1` rows and `n2` columns (the fit runs on the
+    graph with `n1 + n2` nodes): the three dendrogram attributes exist and are valid with non-decreasing heights -/
+theorem louvainHierarchy_bipartite (n1 n2 : Nat) (h1 : 0 < n1) (h2 : 0 < n2) (first : List Nat)
+    (more : List (List Nat)) (hfirst : first.length = n1 + n2) (hok : SeqOK more (uniqueSorted first).length)
+    (hlen : (uniqueSorted first).length < more.length) :
+    ∃ t D R C, getHierarchy (n1 + n2) (first :: more) = some t ∧ treePipeline t = .ok D ∧
+      ValidDendro (n1 + n2) D = true ∧ heightsSorted D = true ∧
+      splitDendrogram D n1 n2 = .ok (R, C) ∧ ValidDendro n1 R = true ∧ ValidDendro n2 C = true ∧
+      heightsSorted R = true ∧ heightsSorted C = true := by
+  obtain ⟨t, D, ht, hD, hv, hs⟩ := louvainHierarchy_total (n1 + n2) (by omega) first more hfirst hok hlen
+  obtain ⟨R, C, hsp, hR, hC, sR, sC⟩ := bipartite_attrs_valid h1 h2 hv hs
+  exact ⟨t, D, R, C, ht, hD, hv, hs, hsp, hR, hC, sR, sC⟩
 
 /-! ### AggregateGraph.merge -/
 
@@ -765,14 +672,17 @@ theorem paris_total (round32 : ℚ → ℚ) (csr : List (List (Nat × ℚ))) (ou
 
 /-- **Paris returns** (`paris_returns`): for every *monotone* rounding of the similarities (exact arithmetic,
     round-to-nearest float32), on a graph with `n ≥ 1` nodes given as a symmetric dict of dicts with non-negative
-    weights (`NbInv`) in which every node has a stored entry (the unit diagonal that `Paris.fit` gives to the nodes
-    of null weight) and every node with a neighbour other than itself has positive out- and in-weights, `Paris.fit`
-    with the fuel of `paris_terminates` **does not raise**: it returns a dendrogram, valid over the `n` nodes, with
-    non-decreasing heights when `reorder=True` and heights never decreasing towards the root otherwise.
-    What the hypotheses exclude is exactly what the pinned code got wrong (F20): node weights whose products
-    underflow to 0 — then `similarity` is `-inf`; the repaired code still returns there (`invSim`), the theorem
-    does not need to cover it.  Not covered: the rounding of the double additions inside `merge` (exact in the
-    model), NaN / inf.
+    entries (`NbInv`), non-negative node weights, and in which the denominator of the similarity
+    `out_x · in_y + out_y · in_x` is positive for every pair of distinct adjacent nodes, `Paris.fit` with the fuel of
+    `paris_terminates` **does not raise**: it returns a dendrogram, valid over the `n` nodes, with non-decreasing
+    heights when `reorder=True` and heights never decreasing towards the root otherwise.
+    The hypotheses hold for every symmetrised non-negative matrix under `weights='uniform'` (isolated nodes
+    included: a node without an edge has an empty row and becomes a component of its own) and under
+    `weights='degree'` for directed inputs too (for an edge `x → y`, `out_x · in_y > 0`; sources and sinks have a
+    null in- or out-weight and are fine), as long as no product of node weights underflows to 0 in double precision.
+    What they exclude is the denominator 0 on an adjacent pair — weights below about 1e-154 relative to the total, or
+    stored zero entries: there the repaired code still returns (`invSim`), by runs only.  Not covered: the rounding
+    of the double additions inside `merge` (exact in the model), NaN / inf.
     Proof: besides the invariants of `paris_terminates`, the chain stays a chain of nearest neighbours of the
     *current* graph after a merge (`isNN_merge`: the similarity to the merged node is a rounded mediant, at most the
     similarity to the old nearest neighbour, and the new id is the largest, so ties do not move) and never visits
@@ -780,9 +690,9 @@ theorem paris_total (round32 : ℚ → ℚ) (csr : List (List (Nat × ℚ))) (ou
 theorem paris_returns (round32 : ℚ → ℚ) (hr : Monotone round32) (csr : List (List (Nat × ℚ))) (outW inW : List ℚ)
     (reorder : Bool) (hn : 1 ≤ csr.length)
     (hsym : NbInv (AggGraph.init csr outW inW).nb csr.length)
-    (hrows : ∀ x, x < csr.length → ∃ y, K (AggGraph.init csr outW inW).nb x y = true)
-    (hpos : ∀ x, x < csr.length → (∃ y, y ≠ x ∧ K (AggGraph.init csr outW inW).nb x y = true) →
-      0 < Paris.wOf (AggGraph.init csr outW inW).outW x ∧ 0 < Paris.wOf (AggGraph.init csr outW inW).inW x)
+    (hwn : ∀ x, 0 ≤ Paris.wOf (AggGraph.init csr outW inW).outW x ∧ 0 ≤ Paris.wOf (AggGraph.init csr outW inW).inW x)
+    (hpos : ∀ x y, K (AggGraph.init csr outW inW).nb x y = true → y ≠ x →
+      0 < Paris.den (AggGraph.init csr outW inW) x y)
     (fuel : Nat) (hfuel : (csr.length + 1) * (2 * csr.length * (2 * csr.length) + 3) ≤ fuel) :
     ∃ D, Paris.fit round32 fuel (AggGraph.init csr outW inW) reorder = .ok (some D) ∧
       ValidDendro csr.length D = true ∧
@@ -793,12 +703,15 @@ theorem paris_returns (round32 : ℚ → ℚ) (hr : Monotone round32) (csr : Lis
   have hnext : (AggGraph.init csr outW inW).next = csr.length := rfl
   have hR0 : RetInv round32 csr.length
       ({ g := AggGraph.init csr outW inW, chain := [], rows := [], comps := [] } : PState ℚ) := by
-    refine ⟨⟨⟨_, pinv_init csr outW inW⟩, hsym⟩, ?_, ?_, ?_, by simp, by simp, trivial⟩
-    · intro x hx; exact hrows x ((hkeys x).mp hx)
+    refine ⟨⟨⟨_, pinv_init csr outW inW⟩, hsym⟩, ?_, ?_, hwn, ?_, by simp, by simp, trivial⟩
+    · -- every node has a (possibly empty) row in the initial dict of dicts
+      intro x hx
+      have hxl := (hkeys x).mp hx
+      exact ⟨_, get?_map_range _ csr.length x hxl⟩
     · intro x y _ hK _
       have := (K_lt (next := csr.length) hsym hK).2
       exact (hkeys y).mpr this
-    · intro x hx hex; exact hpos x ((hkeys x).mp hx) hex
+    · intro x y _ hK hne; exact hpos x y hK hne
   have hmu : mu round32 (2 * csr.length)
       ({ g := AggGraph.init csr outW inW, chain := [], rows := [], comps := [] } : PState ℚ) < fuel := by
     unfold mu pot
@@ -886,31 +799,24 @@ example : NbInv (AggGraph.init [[(1, (1 : ℚ) / 8), (3, 1 / 8)], [(0, 1 / 8), (
     rw [hrow]
     rcases x with _ | _ | _ | _ | x <;> rcases y with _ | _ | _ | _ | y <;> simp [Dict.get?]
 
-/-- non-vacuity of the remaining hypotheses of `paris_returns` on the same 4-cycle: every node has a stored entry and
-    positive weights, the identity is monotone -/
-example : Monotone (id : ℚ → ℚ) ∧
-    (∀ x, x < 4 → ∃ y, K (AggGraph.init [[(1, (1 : ℚ) / 8), (3, 1 / 8)], [(0, 1 / 8), (2, 1 / 8)],
-        [(1, 1 / 8), (3, 1 / 8)], [(0, 1 / 8), (2, 1 / 8)]] [1 / 4, 1 / 4, 1 / 4, 1 / 4] [1 / 4, 1 / 4, 1 / 4, 1 / 4]).nb
-          x y = true) ∧
-    (∀ x, x < 4 → 0 < Paris.wOf (AggGraph.init [[(1, (1 : ℚ) / 8), (3, 1 / 8)], [(0, 1 / 8), (2, 1 / 8)],
-        [(1, 1 / 8), (3, 1 / 8)], [(0, 1 / 8), (2, 1 / 8)]] [1 / 4, 1 / 4, 1 / 4, 1 / 4] [1 / 4, 1 / 4, 1 / 4, 1 / 4]).outW x ∧
-      0 < Paris.wOf (AggGraph.init [[(1, (1 : ℚ) / 8), (3, 1 / 8)], [(0, 1 / 8), (2, 1 / 8)],
-        [(1, 1 / 8), (3, 1 / 8)], [(0, 1 / 8), (2, 1 / 8)]] [1 / 4, 1 / 4, 1 / 4, 1 / 4] [1 / 4, 1 / 4, 1 / 4, 1 / 4]).inW x) := by
-  refine ⟨monotone_id, ?_, ?_⟩
-  · intro x hx
-    rcases x with _ | _ | _ | _ | x
-    · exact ⟨1, by decide +kernel⟩
-    · exact ⟨0, by decide +kernel⟩
-    · exact ⟨1, by decide +kernel⟩
-    · exact ⟨0, by decide +kernel⟩
-    · omega
-  · intro x hx
-    rcases x with _ | _ | _ | _ | x
-    · exact ⟨by decide +kernel, by decide +kernel⟩
-    · exact ⟨by decide +kernel, by decide +kernel⟩
-    · exact ⟨by decide +kernel, by decide +kernel⟩
-    · exact ⟨by decide +kernel, by decide +kernel⟩
-    · omega
+/-- the two input classes the first version of `paris_returns` excluded (second review): a directed input with a
+    source and two sinks under `weights='degree'` (0 → 1, 0 → 2: out = [1, 0, 0], in = [0, ½, ½], computed before the
+    symmetrisation — every node has a null in- or out-weight, every adjacent pair a positive denominator), and
+    `weights='uniform'` with an isolated node (edge 0 – 1, node 2 alone: its row is empty). In both the denominators
+    of adjacent pairs are positive, the weights non-negative, and `Paris.fit` returns a valid dendrogram. -/
+example :
+    let g1 : AggGraph ℚ := AggGraph.init [[(1, 1 / 4), (2, 1 / 4)], [(0, 1 / 4)], [(0, 1 / 4)]] [1, 0, 0] [0, 1 / 2, 1 / 2]
+    let g2 : AggGraph ℚ := AggGraph.init [[(1, 1 / 2)], [(0, 1 / 2)], []] [1 / 3, 1 / 3, 1 / 3] [1 / 3, 1 / 3, 1 / 3]
+    (0 < Paris.den g1 0 1 ∧ 0 < Paris.den g1 0 2 ∧ 0 < Paris.den g1 1 0 ∧ 0 < Paris.den g1 2 0) ∧
+    (Paris.wOf g1.outW 1 = 0 ∧ Paris.wOf g1.inW 0 = 0) ∧
+    (match Paris.fit (α := ℚ) id 200 g1 true with
+      | .ok (some D) => ValidDendro 3 D && heightsSorted D
+      | _ => false) = true ∧
+    (0 < Paris.den g2 0 1 ∧ 0 < Paris.den g2 1 0 ∧ row g2.nb 2 = []) ∧
+    (match Paris.fit (α := ℚ) id 200 g2 true with
+      | .ok (some D) => ValidDendro 3 D && heightsSorted D
+      | _ => false) = true := by
+  decide +kernel
 
 end parisTerminates
 
